@@ -530,6 +530,12 @@ def _emit_fn(g, source, a, blocks, vacuity, probe_insert=None):
             raise ExtractError(f"anchor lost: ` as _` in {f.name}")
         body = re.sub(r"\s+as\s+_\b", "", body)
         rules.append(("R2b", f"` as _` dropped ({cnt}x)"))
+    if a.get("str_paths"):
+        # R15d: the std validators `std::str::X` / `core::str::X` are reached through the unit's stand-in module `str`
+        body2 = re.sub(r"\b(?:std|core)::str::", "str::", body)
+        if body2 != body:
+            rules.append(("R15d", "`std::str::` / `core::str::` paths -> the unit's stand-in module `str`"))
+            body = body2
     if a.get("str_types"):
         # R15c: the primitive type `str` named inside the body (`::<str>`, `&str`) -> the stand-in `Str`
         body2 = re.sub(r"(?<![\w])str(?![\w:(])", "Str", body)
@@ -612,7 +618,12 @@ def _emit_fn(g, source, a, blocks, vacuity, probe_insert=None):
                         # R18b: the unit supplies the closure's postcondition (the body calls exec functions, so
                         # `o == EXPR` is not a specification); the body is unchanged and is verified against it
                         cty, cens = cty.split("@@", 1)
-                        outp.append(f"|{params}| -> (o: {cty.strip()}) ensures {cens.strip()} {{ {expr} }}")
+                        if params.startswith("("):
+                            # tuple pattern: Verus closures take plain variables only -> destructure inside (the
+                            # unit's postcondition may name the pattern's variables)
+                            outp.append(f"|r18_p| -> (o: {cty.strip()}) ensures ({{ let {params} = r18_p; {cens.strip()} }}) {{ let {params} = r18_p; {expr} }}")
+                        else:
+                            outp.append(f"|{params}| -> (o: {cty.strip()}) ensures {cens.strip()} {{ {expr} }}")
                         rules.append(("R18b", f"closure `|{params}| {expr}` annotated with the unit's `ensures {cens.strip()}`"))
                         k = close_idx
                         hit += 1
@@ -702,8 +713,12 @@ def _emit_fn(g, source, a, blocks, vacuity, probe_insert=None):
         rules.append(("R4g", f"tuple-pattern parameter `{pat}` -> `r4_arg` + `let {pat} = r4_arg;`"))
     if a.get("alias_get_mut"):
         # R4e: with R4 the receiver already is `&mut self`; `self.get_mut()` (Pin::get_mut) is the identity
-        body = replace_pattern(body, "self.get_mut()", "self", f.name, int(a.get("alias_get_mut_count", 1)))
-        rules.append(("R4e", "`self.get_mut()` -> `self`"))
+        n_gm = norm(body).count(norm("self.get_mut()"))
+        if n_gm:
+            body = replace_pattern(body, "self.get_mut()", "self", f.name, n_gm)
+            rules.append(("R4e", f"`self.get_mut()` -> `self` ({n_gm}x)"))
+        else:
+            rules.append(("R4e", "no `self.get_mut()` in the body: nothing to do"))
     if a.get("alias_this"):
         # R4c: with R4 the receiver already is `&mut self`; `let this = self.as_mut().get_mut();` (or `self.get_mut()`)
         # only re-borrows it.  The statement is dropped and the alias `this` is renamed to `self`.
